@@ -9,6 +9,8 @@ parallel (dask) path.
 
 from __future__ import annotations
 
+import os
+
 import numpy as np
 
 import vx
@@ -38,7 +40,7 @@ EXC = {"ValueError": ValueError, "KeyError": KeyError, "RuntimeError": RuntimeEr
        # exception classes the interpreter itself gives a control-flow meaning to: they must propagate like any other
        "StopIteration": StopIteration, "StopAsyncIteration": StopAsyncIteration, "AssertionError": AssertionError, "LookupError": LookupError,
        "AttributeError": AttributeError, "TypeError": TypeError, "NotImplementedError": NotImplementedError, "MemoryError": MemoryError,
-       "ImportError": ImportError, "EOFError": EOFError, "TimeoutError": TimeoutError}
+       "ImportError": ImportError, "EOFError": EOFError, "TimeoutError": TimeoutError, "ModuleNotFoundError": ModuleNotFoundError, "FileNotFoundError": FileNotFoundError}
 
 
 class UserFault(Exception):
@@ -91,6 +93,11 @@ def tasks(tier, seed):
             out.append({"fn": "crash", "kwargs": {"steps": 1 + k % 2, "models": 2, "mode": "observation", "exc": names[k % len(names)], "pkind": pkind}, "label": f"observation/values/{pkind}"})
     for exc in (names[:3] + ["StopIteration"]) if tier == "quick" else names:
         out.append({"fn": "fitness_crash", "kwargs": {"exc": exc}, "label": f"fitness/{exc}"})
+    cal_cases = [[e, c] for e in ("ValueError", "ModuleNotFoundError", "ImportError", "StopIteration", "KeyError", "UserFault") for c in (1, 8)] + [["RuntimeError", 4], ["ValueError", 10], ["UserFault", 12]]
+    if tier == "thorough":
+        cal_cases = [[e, c] for e in names + ["UserFault"] for c in (1, 3, 8, 9, 13)]
+    for i in range(0, len(cal_cases), 3):
+        out.append({"fn": "calibration_replay", "kwargs": {"cases": cal_cases[i:i + 3]}, "label": f"witness/calibration/{i // 3}", "kind": "direct"})
     out.append({"fn": "dask_replay", "kwargs": {"n": 3 if tier == "quick" else 8}, "label": "witness/dask", "kind": "direct"})
     return out
 
@@ -314,7 +321,104 @@ def dask_replay(tier, seed, n):
     return {"obligations": obligations, "paths": len(pts), "reached": {o["id"]: 1 for o in obligations}}
 
 
+def _calibration_case(exc_name, fault_call):
+    """Real pyxel.run_mode(Calibration) with real pygmo (1 island, sade, 8 individuals, 1 generation): the probe fails at its
+    `fault_call`-th execution.  Calls 1..8 evaluate the initial population in the caller's thread, later calls happen during evolution."""
+    import tempfile
+    import warnings
+
+    import pyxel
+    from pyxel.calibration import Algorithm, Calibration
+    from pyxel.exposure import Readout
+    from pyxel.observation import ParameterValues
+    from pyxel.pipelines import FitnessFunction
+
+    warnings.filterwarnings("ignore")
+    pipe, layout = _pipeline(2)
+    msg = "injected fault 0xC09"
+    calls = [0]
+
+    def hook(d, tag, kwargs, rec):
+        if d.pixel._array is None:
+            d.pixel.array = np.zeros((2, 2))
+        if tag == 1:
+            calls[0] += 1
+            if calls[0] == fault_call:
+                raise EXC[exc_name](msg)
+
+    tmp = tempfile.mkdtemp(prefix="vx_c09_")
+    tfile = os.path.join(tmp, "t.npy")
+    np.save(tfile, np.zeros((2, 2)))
+    vxprobes.reset(hook)
+    caught, result = None, None
+    import pyxel.calibration.archipelago_datatree as _ad
+
+    real_tqdm = _ad.tqdm
+    _ad.tqdm = lambda *a, **k: real_tqdm(*a, **{**k, "disable": True})  # progress bars off
+    try:
+        cal = Calibration(target_data_path=[tfile], fitness_function=FitnessFunction(func="pyxel.calibration.fitness.sum_of_abs_residuals"),
+                          algorithm=Algorithm(type="sade", generations=1, population_size=8), num_islands=1, num_evolutions=1,
+                          parameters=[ParameterValues(key="pipeline.photon_collection.m0.arguments.p", values="_", boundaries=(0.0, 1.0))],
+                          readout=Readout(), pygmo_seed=11, pipeline_seed=3, result_type="pixel")
+        result = pyxel.run_mode(mode=cal, detector=make_ccd(2, 2), pipeline=pipe)
+        if hasattr(result, "load"):
+            result.load()
+    except Exception as e:  # noqa: BLE001
+        caught = e
+    finally:
+        _ad.tqdm = real_tqdm
+        vxprobes.reset(None)
+        try:
+            os.remove(tfile)
+            os.rmdir(tmp)
+        except OSError:
+            pass
+    g, nm = layout[1]
+    text = ""
+    e = caught
+    while e is not None and len(text) < 20000:
+        text += str(e) + "\n".join(getattr(e, "__notes__", []) or []) + "\n"
+        e = e.__cause__ or e.__context__
+    initial = fault_call <= 8
+    bad = []
+    if calls[0] == 0:
+        raise RuntimeError(f"calibration harness never executed the pipeline: {caught!r}")
+    if calls[0] < fault_call and caught is not None:
+        raise RuntimeError(f"calibration harness failed before the fault point: {caught!r}")
+    if calls[0] < fault_call:
+        return None, {"note": f"the run needed only {calls[0]} pipeline executions: fault point outside the run"}
+    if caught is None:
+        bad.append("no exception reached the caller")
+    else:
+        if msg not in text:
+            bad.append("original message lost")
+        if f"'{g}'" not in text or f"'{nm}'" not in text:
+            bad.append("group / model name lost")
+        if initial and type(caught) is not EXC[exc_name]:
+            bad.append(f"type changed to {type(caught).__name__} (initial population runs in the caller's thread)")
+        if initial and msg not in str(caught):
+            bad.append("the exception that reaches the caller does not carry the original message itself")
+    return bool(bad), {"problems": bad, "caught": repr(caught)[:300], "pipeline_executions": calls[0]}
+
+
+def calibration_replay(tier, seed, cases):
+    """Calibration mode (initial population and evolution): pygmo's C++ archipelago cannot be explored symbolically, so the crash
+    points are concrete witness runs of the real code."""
+    obligations = []
+    for exc_name, call in cases:
+        bad, info = _calibration_case(exc_name, call)
+        if bad is None:
+            continue
+        phase = "initial" if call <= 8 else "evolution"
+        obligations.append({"id": f"C09/witness/calibration/{phase}/{exc_name},call={call}", "verdict": "sat" if bad else "unsat", "info": info,
+                            "model": {"exc": exc_name, "fault_call": call}, "observed": {}})
+    return {"obligations": obligations, "paths": len(cases), "reached": {o["id"]: 1 for o in obligations}}
+
+
 def replay(oid, kwargs, model, data):
+    if data["fn"] == "calibration_replay":
+        bad, info = _calibration_case(model["exc"], int(model["fault_call"]))
+        return bool(bad), info
     if data["fn"] == "crash":
         f = (int(model.get("fault_run", -1)), int(model.get("fault_step", -1)), int(model.get("fault_pos", -1)))
         log: list = []
